@@ -1,6 +1,6 @@
 (* Property C14 — statements only.  Each is closed by [exact] of a lemma proved in XPathLitproof*.v. *)
 From Coq Require Import List NArith Bool. Import ListNotations.
-Require Import XPathLit XPathLitproof XPathLitproof2 XPathLitproof3 XPathLitproof4.
+Require Import XPathLit XPathLitproof XPathLitproof2 XPathLitproof3 XPathLitproof4 XPathLitproof5.
 Open Scope N_scope.
 
 (* The full statement, for the quoting function of the repaired code: whatever the identifier contains, the text
@@ -69,6 +69,28 @@ Example C14_query_skeleton_example :
   strip_suffix s_concat (rev [61;110;64;91;93]) = None /\ noquote post = true /\
   skeleton (pre ++ quote [97;34;98;39;99] ++ post)
   = Some [TOther [120;91;64;102;61]; TStr [112]; TOther [93;91;64;110;61]; TStr [97;34;98;39;99]; TOther [93;91;49;93]].
+Proof. repeat split. Qed.
+
+(* The same with any rest that lexes (it may contain further literals, e.g. [@style:family=DQ paragraph DQ] after the
+   identifier): the skeleton of the query is the folded prefix tokens, the identifier, the skeleton of the rest. *)
+Theorem C14_query_skeleton_general : forall (pre v post : str) (ts : list tok) (cur : str) (tp : list tok),
+  lexp LOut [] pre = (ts, LOut, cur) ->
+  strip_suffix s_concat (rev cur) = None ->
+  lex LOut [] post = Some tp ->
+  skeleton (pre ++ quote v ++ post)
+  = Some (fold_right fold_step (other (rev cur) ++ TStr v :: fold_right fold_step [] tp) ts).
+Proof. exact query_skeleton_gen. Qed.
+Print Assumptions C14_query_skeleton_general.
+
+(* hypotheses inhabited: pre = x[@n=  post = ][@f=DQ p DQ] ; identifier a DQ b SQ c *)
+Example C14_query_skeleton_general_example :
+  let pre := [120;91;64;110;61] in
+  let post := [93;91;64;102;61;34;112;34;93] in
+  lexp LOut [] pre = ([], LOut, [61;110;64;91;120]) /\
+  strip_suffix s_concat (rev [61;110;64;91;120]) = None /\
+  lex LOut [] post = Some [TOther [93;91;64;102;61]; TStr [112]; TOther [93]] /\
+  skeleton (pre ++ quote [97;34;98;39;99] ++ post)
+  = Some [TOther [120;91;64;110;61]; TStr [97;34;98;39;99]; TOther [93;91;64;102;61]; TStr [112]; TOther [93]].
 Proof. repeat split. Qed.
 
 (* the pinned code: pasting between double quotes *)
